@@ -71,6 +71,22 @@ def handleC12 (j : J) : J :=
               | .directive d => (d.args.map (·.dirs.length)).sum
               | _ => 0)).sum : Nat)),
           ("blockOnly", .bool blockOnly), ("buildErased", .bool buildErased)]
+  | "wrapDesc" =>
+    -- `wrapped_description_lexes` evaluated: the wrapped lines of a description at an indentation width, the predicate
+    -- `descWrapOK`, the value the theorem says the printed block string has, and the printed text lexed by the lexer model
+    let d := j.strD "d"
+    let depth := j.natD "depth"
+    let ind := j.strD "indent"
+    let o : SdlPrintT.OptsT := { indent := textOfString ind }
+    let w := depth * o.indent.length
+    let txt := SdlPrintT.printDescription o (some d) depth (j.boolD "first")
+    let lexed : J := match Lex.lexAll txt with
+      | .ok [_, tok, _] => if tok.kind == .blockString then J.ofText tok.value else .null
+      | _ => .null
+    .obj [("ok", .bool (SdlText.descWrapOK w d)), ("okNarrow", .bool (SdlText.descTextOK w d)),
+          ("value", J.ofText (BlockString.joinLF (SdlText.wrappedOf w d))), ("lines", .num (SdlText.wrappedOf w d).length),
+          ("fits", .bool ((SdlText.wrappedOf w d).all (fun l => l.length ≤ 120 - w))),
+          ("lexed", lexed)]
   | _ => .obj [("error", .str "bad-op")]
 
 def main : IO Unit := Driver.run handleC12
